@@ -267,6 +267,8 @@ BROADCAST = [
 
 DYADIC = [1.0, 2.0, 3.0, -1.0, -2.0, 0.5, -0.5, 4.0, -3.0]
 ULP = [0.1, 0.2, 0.3, 1.0 / 3.0, 1e16 + 2.0, 1.1, 2.3, -0.7, 1e-3, 123456.789]
+# finite extremes and IEEE specials (only where executors are compared with each other, never with exact arithmetic)
+SPECIAL = [float("inf"), float("-inf"), -0.0, 5e-324, 2.2250738585072014e-308, 1.7976931348623157e308, -1.7976931348623157e308, float("nan")]
 LITERALS = ["0", "1", "2", "3", "0.5", "1.5", "2.0", "0.0", "10", "1e1", "2.5e-1"]
 SIZES_WEIGHTED = [0, 1, 1, 2, 2, 3, 3, 4]
 CAPACITIES = [1, 2, 3, 5, 16, None]
